@@ -141,6 +141,7 @@ func RunC11T(r *Run) {
 		st.GetFaults = map[string]GetFault{}
 		st.Alt = map[string][]byte{}
 		st.Delay = map[string]time.Duration{}
+		st.ErrFlavor = r.Choose("error-flavor", 3)
 		timeout := []time.Duration{time.Second, 5 * time.Second, time.Minute}[r.Choose("timeout", 3)]
 		bad := map[string]bool{}
 		stalled := map[string]bool{}
